@@ -58,13 +58,6 @@ def chain2Sem : Sem chain2 where
     split at hs
     · simp at hs
     · simp at hs; rcases hs with rfl | rfl <;> rfl
-  slotKeep := by
-    intro n s hs _
-    right
-    simp only [chain2] at hs
-    split at hs
-    · simp at hs
-    · simp at hs; rcases hs with rfl | rfl <;> rfl
   dimsValid := fun _ => ⟨by simp, by simp⟩
   local_ := by
     intro n cl x ds hv hx hcl
